@@ -22,6 +22,16 @@ def one(ctx, kind, pts, opts, family):
     case = dict(detector=kind, options=opts, points=pts.tolist())
     site = f'{kind}.knee' + (f"[{opts.get('fit')},{opts.get('mode')},limit={opts.get('limit')}]" if kind == 'lmethod' else '')
     real = None
+    early = {}
+    if kind == 'lmethod' and n >= 5:
+        # get_knee FIRST, before this case's knee() call: whatever an earlier case left behind in the module is still there
+        import kneeliverse.lmethod as lm
+        for fitn in ('pointfit', 'bestfit'):
+            for cost in ('rmse', 'rss'):
+                try:
+                    early[(fitn, cost)] = int(lm.get_knee(pts[:, 0], pts[:, 1], {'pointfit': lm.Fit.point_fit, 'bestfit': lm.Fit.best_fit}[fitn], {'rmse': lm.Cost.rmse, 'rss': lm.Cost.rss}[cost])[0])
+                except Exception:
+                    pass
     try:
         real, cnt = detfam.real_knee(kind, pts, opts)
         real = None if real is None else int(real)
@@ -164,7 +174,10 @@ def one(ctx, kind, pts, opts, family):
                     e = np.asarray(orc.errs_ref(0, n, n, fitn, cost), float)
                     if not np.all(np.isfinite(e)):
                         continue
-                    k = int(lm.get_knee(pts[:, 0], pts[:, 1], {'pointfit': lm.Fit.point_fit, 'bestfit': lm.Fit.best_fit}[fitn], {'rmse': lm.Cost.rmse, 'rss': lm.Cost.rss}[cost])[0])
+                    k2 = int(lm.get_knee(pts[:, 0], pts[:, 1], {'pointfit': lm.Fit.point_fit, 'bestfit': lm.Fit.best_fit}[fitn], {'rmse': lm.Cost.rmse, 'rss': lm.Cost.rss}[cost])[0])
+                    k = early.get((fitn, cost), k2)        # the answer given BEFORE this case's knee() call (other call history)
+                    if k != k2:
+                        ctx.tag('get_knee-history-dependent')
                     if not (2 <= k <= n - 3) or e[k - 2] > np.min(e) + 1e-7 * np.max(e) + noise[cost]:
                         ctx.fail('predicate', 'get_knee-minimises-the-length-weighted-two-line-error(definition)', f'lmethod.get_knee[{fitn},{cost}]', case,
                                  dict(knee=k, error=float(e[k - 2]) if 2 <= k <= n - 3 else None, min=float(np.min(e)), argmin=2 + int(np.argmin(e))))
